@@ -24,7 +24,7 @@ def relation():
     if _REL is not None:
         return _REL
     import websocket._utils as U
-    start = (U._UTF8_ACCEPT, 0)
+    start = (sx.unit(U, "_UTF8_ACCEPT"), 0)
     rel = {start: b""}
     work = [start]
     while work:
@@ -32,7 +32,7 @@ def relation():
         for b in range(256):
             s2, _ = sx.unit(U, "_decode")(s, 0, b)
             r2 = utf8ref.step_concrete(r, b)
-            if s2 == U._UTF8_REJECT or r2 == utf8ref.DEAD:
+            if s2 == sx.unit(U, "_UTF8_REJECT") or r2 == utf8ref.DEAD:
                 continue
             if (s2, r2) not in rel:
                 rel[(s2, r2)] = rel[(s, r)] + bytes([b])
@@ -63,7 +63,7 @@ def u_sim_step(idx):
     codep = sx.sym_int("codep", 21)
     s2, c2 = sx.unit(U, "_decode")(s, codep, b)
     r2 = _ref_step(r, b)
-    rej = s2 == U._UTF8_REJECT
+    rej = s2 == sx.unit(U, "_UTF8_REJECT")
     sx.require(sx.Iff(rej, r2 == utf8ref.DEAD), "validator rejects the byte exactly when the reference DFA dies", pair=str((s, r)))
     inrel = sx.Or([sx.And(s2 == p[0], r2 == p[1]) for p in pairs])
     sx.require(sx.Or(rej, inrel), "successor pair stays inside the simulation relation", pair=str((s, r)))
